@@ -1,6 +1,13 @@
 import sys
 pid=sys.argv[1]
 prop=open(f"/tmp/prop-{pid}.txt").read()  # produced from /verif/properties.jsonl (id, title, statement, quantifier, why_tests_cant, anchors)
+EVASIVE = ""
+if len(sys.argv) > 2 and sys.argv[2] == "evasive":
+    EVASIVE = """Make it EVASIVE. Assume an automated checker already (a) runs every small program (all programs up to about eight syntax nodes over the whole grammar, every pair and triple of nested constructs), (b) climbs size ladders one by one and around every power of two up to 2^16+1 for every obvious size (loop iterations, string and list lengths, code offsets and jump distances, numbers of locals / globals / constants / functions / arguments, nesting and recursion depth, pending operands), (c) sweeps thousands of Unicode code points through literals, comments, names and between tokens, (d) runs all sessions of three lines and long sessions with up to two unusual lines. Choose a defect that none of that would hit by accident: it should depend on a CONJUNCTION of two or three independent conditions (for instance a particular feature used inside another particular feature at a non-trivial value), on a threshold that is not a power of two and not tiny (say 1000, 3000, 10007), on a data-dependent relation between two values, or on an order of events that is unusual but legal. It must still be a slip a maintainer could plausibly make.
+
+"""
+if len(sys.argv) > 3:
+    EVASIVE += f"To keep different testers apart, make your main change in {sys.argv[3]} (touch another file only if the defect needs a cooperating site there).\n\n"
 print(f"""You are helping to test a verification harness by seeding a realistic defect into a small Rust project.
 
 The project: `nederlang`, a toy Dutch-keyword dynamically typed language (lexer, Pratt parser, bytecode compiler, stack VM, tagged-pointer objects, mark-sweep GC). You have your OWN scratch git worktree of it at /tmp/wt-{pid} . Work ONLY inside /tmp/wt-{pid} (never touch /repo or /verif, and do not read anything under /verif). The sandbox has no network; use `cargo ... --offline`. Set CARGO_TARGET_DIR=/tmp/wt-{pid}/target for every cargo command.
@@ -24,4 +31,4 @@ Deliverables (write these files):
 2. /tmp/wt-{pid}/seeded/demo.rs — a small standalone Rust integration test (it will be placed in tests/ of the project; use `nederlang::eval` or the public `nederlang::compiler::Compiler`, `nederlang::vm::VM`, `nederlang::parser::parse`, `nederlang::object::{{Object, Error}}` APIs) that FAILS with your change and PASSES without it. Verify both yourself: copy it to tests/seeded_demo.rs, run it with the change (must fail), then take the src change out with `git diff -- src > /tmp/wt-{pid}/my.diff && git apply -R /tmp/wt-{pid}/my.diff`, run it again (must pass), put the change back with `git apply /tmp/wt-{pid}/my.diff`, then remove tests/seeded_demo.rs again. NEVER use `git stash` (the stash is shared between worktrees and other people are using it).
 3. /tmp/wt-{pid}/seeded/meta.json — JSON with keys: "property" ("{pid}"), "summary" (one sentence: what you changed), "needs" (what specific input/sequence/condition is needed for the violation to manifest), "commands_run" (list of commands you ran to confirm: full test suite green with the change, demo fails with it, demo passes without it).
 
-When finished leave the worktree with your source change applied (uncommitted), the three files under seeded/, and no tests/seeded_demo.rs. Reply with a short summary of the change and what is needed to trigger it. Be efficient: do not explore more than necessary.""")
+{EVASIVE}When finished leave the worktree with your source change applied (uncommitted), the three files under seeded/, and no tests/seeded_demo.rs. Reply with a short summary of the change and what is needed to trigger it. Be efficient: do not explore more than necessary.""")
